@@ -8,12 +8,18 @@ S->I: TLC enumerates spellings family by family (digit groups with underscores i
       suffix x context type, boundary magnitudes, hexadecimal, exactly representable floats, every escape /
       line continuation / {{ }} / interpolation in strings, f-strings and chars (all item sequences up to a
       bound + seeded walks), IPv4/IPv6/prefix/AS literals, identifier class strings, keywords, comments and
-      shebang lines) together with Denote and TokenShape, and every operator string up to a bound (+ seeded
+      shebang lines, the suffix x spelling x context-type matrix of numbers ("sufx": a suffixed literal has the
+      suffix's type whatever its digits look like, so another context type must not compile), programs as
+      piece sequences with trivia in every gap and every way the input can end ("prog"/"progg": comment,
+      commented-out code or shebang as the last line with and without a final line end; denotation = which
+      functions exist and what they return)) together with Denote and TokenShape, and every operator string up to a bound (+ seeded
       longer ones) together with Parse / Paren / operand types / values.  Every case is rendered to source
       text, compiled and called by the real crate (harness/src/bin/c09.rs) and the observation (value,
       accept/reject, token boundaries via roto::verif::lex) is compared with what TLC printed.
 I->S: seeded random concrete spellings and expressions beyond TLC's bounds (20-digit numbers, random
-      dyadic floats, arbitrary code points, long item sequences, long operator strings) are compiled by
+      dyadic floats, arbitrary code points, long item sequences, long operator strings, numbers whose suffix
+      names another type than the context (return type / annotated let / parameter) requires, random programs
+      of items, comments, commented-out items, white space and shebangs with any ending) are compiled by
       the harness; python abstracts them into the spec's symbol sequences and TLC accepts the trace iff
       every observation is what Denote / Parse+Eval say (TraceGrammar.tla).
 This module only maps representations (symbol sequence <-> text, IEEE bits <-> sign/mantissa/exponent,
@@ -52,6 +58,32 @@ COMMENT = {"": "", "plain": "// a comment\n", "empty": "//\n", "utf8": "// é東
            "quotes": "// \" ' f\" {{ \\ \n", "code": "// } fn g() -> i32 { 2 }\n", "slashes": "//// /* */ //\n",
            "crlf": "// c\r\n"}
 
+# programs with trivia (Literals.tla "Programs with trivia"): piece -> text
+WS_TEXT = {"sp": " ", "tab": "\t", "nl": "\n", "crlf": "\r\n"}
+COM_BODY = {"empty": "", "plain": " a comment", "utf8": " é東\U0001d4b3́ ü", "quotes": " \" ' f\" {{ \\ ",
+            "code": " } fn g() -> i32 { 2 }", "slashes": "// /* */ //", "item_g": " fn g() -> i32 { 2 }",
+            "item_f": " fn f() -> i32 { 9 }", "shebang": " #!/bin/sh"}
+SHEB_BODY = {"path": "/usr/bin/roto", "args": "/usr/bin/env -S roto run --quiet", "utf8": "/opt/ünï/東京/\U0001d4b3 ́x",
+             "space": " /usr/bin/env roto", "bare": "", "item_g": "fn g() -> i32 { 2 }"}
+PROBES = ["f", "g", "h"]        # Literals.ProbeNames
+POS_FORMS = ["ret", "let", "arg"]
+
+
+def piece_text(p):
+    k = p["k"]
+    if k == "t":
+        return p["t"]
+    if k == "d":
+        return "".join(p["ds"])
+    if k == "ws":
+        return WS_TEXT[p["w"]]
+    if k == "com":
+        return "//" + COM_BODY[p["body"]]
+    if k == "sheb":
+        return "#!" + SHEB_BODY[p["body"]]
+    raise vlib.ToolError("unknown piece %r" % (p,))
+
+
 # representatives of the identifier character classes (Literals.tla "Identifiers")
 CLS_REPS = {
     "L": ["q", "Z", "k", "j", "x", "w"],
@@ -74,6 +106,9 @@ CLS_WIDTH = {"L": 1, "D": 1, "U": 1, "N1": 1, "S2": 2, "C2": 2, "N2": 2, "S3": 3
 
 def check_rep_table():
     """The representative table must be consistent with an independent Unicode database (python's)."""
+    for body in list(COM_BODY.values()) + list(SHEB_BODY.values()):
+        if "\n" in body or "\r" in body:
+            raise vlib.ToolError("comment / shebang text %r contains a line end (the specification says it does not)" % body)
     for cls, reps in list(CLS_REPS.items()) + list(BIG_REPS.items()):
         for c in reps:
             if len(c.encode("utf-8")) != CLS_WIDTH[cls]:
@@ -153,6 +188,8 @@ def render(sp, variant=0):
             t += COMMENT[g] + tok + " "
         t += COMMENT[sp["gaps"][9]]
         return t, "i32"
+    if fam == "prog":
+        return "".join(piece_text(p) for p in sp["ps"]), "i32"
     raise vlib.ToolError("unknown family %r" % fam)
 
 
@@ -162,6 +199,14 @@ def harness_case(sp, text, ty, want_lex):
         c = {"src": "fn %s() -> i32 { 1 }\n" % text, "fns": [{"n": text, "t": "i32"}]}
     elif fam == "trivia":
         c = {"src": text, "fns": [{"n": "f", "t": "i32"}]}
+    elif fam == "prog":
+        c = {"src": text, "fns": [{"n": n, "t": "i32"} for n in PROBES]}
+    elif sp.get("pos", "ret") == "let":
+        c = {"src": "fn f() -> %s { let x: %s = %s; x }\n" % (ty, ty, text), "fns": [{"n": "f", "t": ty}]}
+    elif sp.get("pos", "ret") == "arg":
+        c = {"src": "fn id(x: %s) -> %s { x }\nfn f() -> %s { id(%s) }\n" % (ty, ty, ty, text), "fns": [{"n": "f", "t": ty}]}
+    elif sp.get("pos", "ret") != "ret":
+        raise vlib.ToolError("unknown context position %r" % (sp.get("pos"),))
     else:
         c = {"src": "fn f() -> %s { %s }\n" % (ty, text), "fns": [{"n": "f", "t": ty}]}
     if want_lex:
@@ -217,6 +262,15 @@ def value_of(fam, ty, v):
     return {"unexpected": v}
 
 
+def probe_value(v):
+    """one probed function of a program -> Literals.Defined / Undefined representation."""
+    if "dec" in v and not v["dec"].startswith("-"):
+        return {"def": True, "neg": False, "mag": digits(int(v["dec"]))}
+    if "missing" in v and re.search(r"The function `pkg\.\w+` does not exist", v["missing"]):
+        return {"def": False, "neg": False, "mag": []}
+    return {"def": False, "neg": False, "mag": [], "unexpected": json.dumps(v)[:200]}
+
+
 def observe(fam, ty, res):
     """-> (obs, abnormal) ; obs = {"cls": "val", "v": ..} | {"cls": "reject", "kinds": .., "msg": ..}"""
     oc = vlib.outcome_of(res)
@@ -225,6 +279,8 @@ def observe(fam, ty, res):
     r = res["r"]
     if r.get("compile") == "err":
         return {"cls": "reject", "kinds": r.get("kinds"), "msg": r.get("msg")}, None
+    if fam == "prog":
+        return {"cls": "val", "v": [probe_value(v) for v in r["vals"]]}, None
     return {"cls": "val", "v": value_of(fam, ty, r["vals"][0])}, None
 
 
@@ -289,6 +345,8 @@ def literal_plan(tier):
             ("float", 0, 0, None), ("str", 2, 0, None), ("fstr", 2, 0, None), ("char", 2, 0, None),
             ("ident", 3 if q else 4, 1, None), ("word", 0, 0, None), ("ip4", 0, 0, None), ("ip6", 0, 0, None),
             ("pfx4", 0, 0, None), ("pfx6", 0, 0, None), ("asn", 0, 0, None), ("trivia", 0, 0, None),
+            ("sufx", 0, 0, None), ("prog", 0, 0, None), ("progg", 3 if q else 4, 0, None),
+            ("progg", 9, 4, (12, 10) if q else (150, 10)),
             ("str", 7, 3, (12, 8) if q else (120, 8)), ("fstr", 8, 3, (14, 9) if q else (160, 9)),
             ("ident", 6, 4, (10, 7) if q else (60, 7))]
     return plan
@@ -332,14 +390,53 @@ def generate_literals(tier, ev):
     return cases, exhaustive
 
 
-def literal_coverage(cases):
+def spelling_class(sp):
+    """spelling class of a number (coverage accounting only)."""
+    if sp["fam"] == "int":
+        return "int-spelled"
+    return "fraction" if sp["dot"] else "exponent" if sp["ex"] else "int-spelled"
+
+
+NUM_TYPES = ["u8", "u16", "u32", "u64", "i8", "i16", "i32", "i64", "f32", "f64"]
+
+
+def literal_coverage(cases, stats=None):
     """anti-vacuity: everything the property names must occur among the claimed cases."""
     seen = set()
+    stats = {} if stats is None else stats
+    cells, nsufx, nprog, nprog_open_end, prog_classes = set(), 0, 0, 0, set()
     for c in cases:
         sp, den = c["sp"], c["den"]
         if den["cls"] == "any":
             continue
         fam = sp["fam"]
+        if fam in ("int", "float") and "pos" in sp:
+            # the suffix x spelling x context-type matrix (MCLiterals.SufxCases)
+            nsufx += 1
+            cl, suf, ctx = spelling_class(sp), sp["suf"] or "none", sp["ctx"]
+            mism = den["cls"] == "reject" and den["why"] == "suffix-type-mismatch"
+            cell = "sufx:%s:%s:%s:%s" % (cl, suf, ctx, "mismatch" if mism else den["cls"])
+            cells.add(cell)
+            seen.add(cell)
+            seen.add("sufx:pos:%s:%s" % (sp["pos"], "mismatch" if mism else den["cls"]))
+            if mism:
+                last = (sp["ds"] if fam == "int" else sp["ed"] or sp["fp"] or sp["ip"])
+                if last and last[-1] == "_":
+                    seen.add("sufx:underscore-before-suffix:%s:%s:%s" % (cl, suf, ctx))
+                if fam == "int" and "_" in sp["ds"][:-1]:
+                    seen.add("sufx:underscore-inside:%s:%s" % (suf, ctx))
+                if fam == "int" and int("".join(d for d in sp["ds"] if d != "_")) > 2 ** 24:
+                    seen.add("sufx:beyond-f32-precision:%s:%s" % (suf, ctx))
+                if sp["neg"]:
+                    seen.add("sufx:negative:mismatch")
+        if fam == "prog":
+            nprog += 1
+            for f in c["feat"]:
+                seen.add("prog:" + f)
+                prog_classes.add(f)
+            if "eof:in-comment" in c["feat"] or "eof:in-shebang" in c["feat"]:
+                nprog_open_end += 1
+            seen.add("prog:gen:" + c.get("gen", "?"))
         seen.add("family:" + fam)
         seen.add("den:%s:%s" % (fam, den["cls"]))
         if den["cls"] == "reject":
@@ -424,6 +521,30 @@ def literal_coverage(cases):
     need += ["word:" + k for k in KEYWORDS]
     need += ["shebang:" + s for s in ("none", "path", "args", "utf8", "space", "bare", "crlf")]
     need += ["comment:" + s for s in ("plain", "empty", "utf8", "quotes", "code", "slashes", "crlf")]
+    # suffix x spelling x context type: every cell of the matrix, with the expected outcome computed by TLC
+    need += ["reject:suffix-type-mismatch", "reject:float-literal-in-integer-context"]
+    for cl in ("int-spelled", "fraction", "exponent"):
+        need += ["sufx:%s:%s:%s:mismatch" % (cl, a, b) for a in NUM_TYPES for b in NUM_TYPES if a != b]
+        need += ["sufx:%s:%s:%s:val" % (cl, a, a) for a in (NUM_TYPES if cl == "int-spelled" else ("f32", "f64"))]
+    need += ["sufx:int-spelled:none:%s:val" % a for a in INT_TYPES] + ["sufx:int-spelled:none:%s:reject" % a for a in ("f32", "f64")]
+    need += ["sufx:%s:none:%s:reject" % (cl, a) for cl in ("fraction", "exponent") for a in INT_TYPES]
+    need += ["sufx:%s:none:%s:val" % (cl, a) for cl in ("fraction", "exponent") for a in ("f32", "f64")]
+    need += ["sufx:pos:%s:%s" % (p, o) for p in POS_FORMS for o in ("mismatch", "val", "reject")]
+    need += ["sufx:underscore-before-suffix:%s:%s:%s" % (cl, a, b) for cl in ("int-spelled", "fraction", "exponent")
+             for a, b in (("f64", "f32"), ("f32", "f64"), ("u8", "u16"), ("i64", "f64"))]
+    need += ["sufx:underscore-inside:f64:f32", "sufx:beyond-f32-precision:f64:f32", "sufx:beyond-f32-precision:f32:f64",
+             "sufx:negative:mismatch"]
+    # programs with trivia: every way the input can end, every comment / shebang / white space form, a comment
+    # behind every kind of token, commented-out code (as text and as tokens, of a defined and of an undefined name)
+    need += ["prog:eof:" + e for e in ("empty", "in-comment", "in-shebang", "line-end", "blank", "token")]
+    need += ["prog:eof-comment:" + b for b in COM_BODY] + ["prog:eof-comment:item-tokens"]
+    need += ["prog:com:" + b for b in COM_BODY] + ["prog:sheb:" + b for b in SHEB_BODY] + ["prog:ws:" + w for w in WS_TEXT]
+    need += ["prog:comment-after:" + t for t in ("start", "fn", "name", "(", ")", "->", "i32", "{", "number", "}")]
+    need += ["prog:commented:item-tokens", "prog:commented:defined-name", "prog:commented:undefined-name"]
+    need += ["prog:items:0", "prog:items:1", "prog:items:2", "prog:gen:enum", "prog:gen:walk"]
+    stats.update({"suffix_matrix_cases": nsufx, "suffix_matrix_cells_seen": len(cells), "program_trivia_cases": nprog,
+                  "program_trivia_classes_seen": len(prog_classes),
+                  "program_trivia_cases_ending_inside_a_comment_or_shebang": nprog_open_end})
     missing = [n for n in need if n not in seen]
     if missing:
         raise vlib.ToolError("literal case families never generated (vacuous run): %s" % missing)
@@ -448,7 +569,9 @@ def run_literals(tier, ev, verd, cases, tag="lit"):
         fam = sp["fam"]
         rep = {"kind": "literal", "case": c, "variant": variant, "text": text, "type": ty, "result": res}
         obs, abnormal = observe(fam, ty, res)
-        ev.case({"family": fam, "text": text, "type": ty, "expect": den}, True, key=vlib.shash([fam, text, ty]))
+        pos = sp.get("pos", "ret") if fam in ("int", "float") else ""
+        ev.case(dict({"family": fam, "text": text, "type": ty, "expect": den}, **({"context": pos} if pos not in ("", "ret") else {})),
+                True, key=vlib.shash([fam, text, ty] + ([pos] if pos not in ("", "ret") else [])))
         ev.traces += 1
         if abnormal:
             verd.report(signature(sp, den, abnormal.split(":")[0], res),
@@ -1055,7 +1178,18 @@ def gen_int(rng):
     ds = with_underscores(rng, ds)
     ctx = rng.choice(INT_TYPES + ["f32", "f64"] if n < (1 << 24) else INT_TYPES)
     suf = ctx if (ctx in ("f32", "f64") or rng.random() < 0.5) else ""
-    return {"fam": "int", "neg": rng.random() < 0.3, "radix": "dec", "ds": ds, "suf": suf, "ctx": ctx}
+    sp = {"fam": "int", "neg": rng.random() < 0.3, "radix": "dec", "ds": ds, "suf": suf, "ctx": ctx}
+    return with_context(rng, sp)
+
+
+def with_context(rng, sp):
+    """sometimes: a suffix that names another type than the context requires, another kind of context."""
+    if rng.random() < 0.2:
+        sp["suf"] = rng.choice(NUM_TYPES)
+        sp["ctx"] = rng.choice(NUM_TYPES)
+    if rng.random() < 0.3:
+        sp["pos"] = rng.choice(POS_FORMS)
+    return sp
 
 
 def gen_float(rng):
@@ -1095,8 +1229,11 @@ def gen_float(rng):
     if not dot and not ex and not suf:
         dot, fp = True, "0"
     fpl = with_underscores(rng, list(fp)) if fp else []
-    return {"fam": "float", "neg": rng.random() < 0.3, "ip": with_underscores(rng, list(ip)), "dot": dot, "fp": fpl,
-            "ex": ex, "es": es, "ed": ed, "suf": suf, "ctx": ctx}
+    sp = {"fam": "float", "neg": rng.random() < 0.3, "ip": with_underscores(rng, list(ip)), "dot": dot, "fp": fpl,
+          "ex": ex, "es": es, "ed": ed, "suf": suf, "ctx": ctx}
+    if dot and not fp:
+        return sp
+    return with_context(rng, sp)
 
 
 def rand_cp(rng, fam):
@@ -1230,6 +1367,58 @@ def gen_trivia(rng):
             "gaps": [rng.choice(forms) if rng.random() < 0.5 else "" for _ in range(10)], "val": list(str(rng.randrange(0, 1000)))}
 
 
+def gen_prog(rng):
+    """a random program as a piece sequence: items, comments (also around and in front of items), white space,
+    a shebang, any ending; what it means is decided by TLC (Literals.DenoteProg)."""
+    def t(x):
+        return {"k": "t", "t": x}
+
+    def ws(line_ok=True):
+        return {"k": "ws", "w": rng.choice(["sp", "sp", "tab", "nl", "crlf"] if line_ok else ["sp", "sp", "tab"])}
+
+    def com():
+        return {"k": "com", "body": rng.choice(list(COM_BODY))}
+
+    def item(nm, one_line):
+        toks = [t("fn"), t(nm), t("("), t(")"), t("->"), t("i32"), t("{"), {"k": "d", "ds": list(str(rng.randrange(0, 1000)))}, t("}")]
+        out = []
+        for k, tok in enumerate(toks):
+            out.append(tok)
+            if k + 1 < len(toks):
+                r = rng.random()
+                if r < 0.6 or k in (0, 4, 5) and r < 0.97:
+                    out.append(ws(not one_line))
+                    while rng.random() < 0.15:
+                        out.append(ws(not one_line))
+                if not one_line and rng.random() < 0.12:
+                    out += [com(), {"k": "ws", "w": rng.choice(["nl", "crlf"])}]
+        return out
+
+    ps = []
+    if rng.random() < 0.3:
+        ps.append({"k": "sheb", "body": rng.choice(list(SHEB_BODY))})
+        if rng.random() < 0.85:
+            ps.append({"k": "ws", "w": rng.choice(["nl", "crlf"])})
+    names = PROBES + [rng.choice(PROBES)]
+    rng.shuffle(names)
+    for nm in names[:rng.choice([0, 1, 1, 2, 2, 3, 4])]:
+        while rng.random() < 0.3:
+            ps.append(ws())
+        if rng.random() < 0.3:
+            ps += [com()] + ([ws(False)] if rng.random() < 0.8 else []) + item(nm, True)
+            if rng.random() < 0.9:
+                ps.append({"k": "ws", "w": rng.choice(["nl", "crlf"])})
+        else:
+            ps += item(nm, False)
+            if rng.random() < 0.5:
+                ps.append(ws())
+    while rng.random() < 0.4:
+        ps.append(rng.choice([ws(), com(), ws(), {"k": "sheb", "body": "path"} if rng.random() < 0.1 else com()]))
+    if rng.random() < 0.5:
+        ps.append({"k": "ws", "w": rng.choice(["nl", "nl", "crlf"])})
+    return {"fam": "prog", "ps": ps}
+
+
 def gen_tree(rng, ty, budget):
     """random typed tree over int / bool operands; returns nested tuples."""
     if budget <= 0 or rng.random() < 0.12:
@@ -1305,7 +1494,7 @@ def record_events(tier, rng):
     """-> list of (event-without-obs, harness case, family, type, text)"""
     q = tier == "quick"
     n = {"int": 500, "float": 500, "str": 400, "fstr": 500, "char": 200, "ident": 400, "ip4": 100, "ip6": 250,
-         "pfx": 200, "asn": 60, "trivia": 60, "expr": 900}
+         "pfx": 200, "asn": 60, "trivia": 60, "prog": 300, "expr": 900}
     if not q:
         n = {k: v * 6 for k, v in n.items()}
     out = []
@@ -1333,7 +1522,7 @@ def record_events(tier, rng):
                 ty = "i32"
             else:
                 sp = {"int": gen_int, "float": gen_float, "ip4": gen_ip4, "ip6": gen_ip6, "pfx": gen_pfx, "asn": gen_asn,
-                      "trivia": gen_trivia}[fam](rng) if fam not in ("str", "fstr", "char") else gen_text(rng, fam)
+                      "trivia": gen_trivia, "prog": gen_prog}[fam](rng) if fam not in ("str", "fstr", "char") else gen_text(rng, fam)
                 text, ty = render(sp)
             out.append(({"fam": sp["fam"], "sp": sp}, harness_case(sp, text, ty, False), sp["fam"], ty, text))
     rng.shuffle(out)
@@ -1468,7 +1657,8 @@ def run(tier):
                "(form, operator string); non-trivial = the specification claims something about the spelling (a value or a "
                "rejection; spellings about which the manual is silent are not counted)")
     lits, exh = generate_literals(tier, ev)
-    nneed = literal_coverage(lits)
+    lstats = {}
+    nneed = literal_coverage(lits, lstats)
     ops, valsets, exh_ops = generate_ops(tier, ev)
     npairs = ops_coverage(ops)
     pxs, blks = generate_px(tier, ev)
@@ -1491,6 +1681,7 @@ def run(tier):
     ev.extra["block_position_cases_run"] = nblk
     ev.extra["flat_vs_parenthesised_comparisons"] = ndiff
     ev.extra["coverage_items_required_and_seen"] = nneed
+    ev.extra.update(lstats)
     ev.extra["adjacent_binary_operator_pairs_seen"] = npairs
     ev.extra["other_bracketings_of_typable_strings"] = tot
     ev.extra["other_bracketings_told_apart_by_value_sets"] = sep
